@@ -58,8 +58,8 @@ TCacheEnter ==
   /\ IF cstack = <<>>
        THEN OuterNext /\ arena[outer + 1] = Rec[l].t
        ELSE Top(cstack).t = Rec[l].t /\ Top(cstack).res = {} /\ Same
-TMiss == Ev("GrandparentsMiss") /\ Step /\ cstack # <<>> /\ Head(Top(cstack).todo) = Rec[l].t /\ Descend
-TRead == Ev("GrandparentsRead") /\ Step /\ cstack # <<>> /\ Head(Top(cstack).todo) = Rec[l].t /\ UseCached
+TMiss == Ev("GrandparentsMiss") /\ Step /\ cstack # <<>> /\ Top(cstack).todo # <<>> /\ Head(Top(cstack).todo) = Rec[l].t /\ Descend
+TRead == Ev("GrandparentsRead") /\ Step /\ cstack # <<>> /\ Top(cstack).todo # <<>> /\ Head(Top(cstack).todo) = Rec[l].t /\ UseCached
 TReturn ==
   /\ Ev("CacheReturn") /\ Step
   /\ cstack # <<>> /\ Top(cstack).t = Rec[l].t
@@ -73,7 +73,7 @@ TLinkVisit ==
   /\ IF ~InFlight
        THEN LinkBeginBuilder(Rec[l].k, Rec[l].x, Rec[l].t)
        ELSE /\ lcur.k = Rec[l].k /\ lcur.x = Rec[l].x
-            /\ lstack # <<>> /\ Head(Top(lstack).todo) = Rec[l].t
+            /\ lstack # <<>> /\ Top(lstack).todo # <<>> /\ Head(Top(lstack).todo) = Rec[l].t
             /\ LinkStep
 TLinkLeave ==
   /\ Ev("LinkLeave") /\ Step
